@@ -68,16 +68,22 @@ abbrev BArr := List BCell
 
 /-- `np.ma.masked_invalid(np.ma.array(inp).astype(np.float64).filled(np.nan))` on a logical
     series: a missing value becomes a masked NaN. -/
-def ofInput (xs : List V) : MArr :=
-  xs.map fun v => match v with | some q => ⟨.num q, false⟩ | none => ⟨.nan, true⟩
+def cellOf (v : V) : Cell := match v with | some q => ⟨.num q, false⟩ | none => ⟨.nan, true⟩
+
+def ofInput (xs : List V) : MArr := xs.map cellOf
 
 /-- numpy.ma binary arithmetic (`+ - *`): masks are united; under the mask the result keeps the
     FIRST operand's raw data. -/
 def maBin (f : Fl → Fl → Fl) (a b : MArr) : MArr :=
   List.zipWith (fun x y => ⟨if x.m || y.m then x.d else f x.d y.d, x.m || y.m⟩) a b
 
-/-- `ma / scalar` (non-zero scalar). -/
-def maDivS (a : MArr) (r : Rat) : MArr := a.map fun x => ⟨if x.m then x.d else x.d.divS r, x.m⟩
+/-- `ma / scalar` (non-zero scalar): a "domained" numpy.ma operation — besides the operand's
+    mask, every non-finite result is masked; under the mask the operand's raw data is kept. -/
+def divCell (x : Cell) (r : Rat) : Cell :=
+  let m := x.m || (x.d.divS r).isNan
+  ⟨if m then x.d else x.d.divS r, m⟩
+
+def maDivS (a : MArr) (r : Rat) : MArr := a.map fun x => divCell x r
 
 /-- A plain ufunc applied to masked arrays (`np.abs`, `np.minimum`): computed on the raw data
     everywhere, masks united. -/
@@ -109,17 +115,23 @@ def setTail {α : Type} (dst src : List α) : List α :=
   | [] => []
   | x :: rest => x :: (src ++ rest.drop src.length)
 
-/-- `np.ma.diff(a)` / `np.diff` of a masked array: `a[1:] - a[:-1]`. -/
-def maDiff (a : MArr) : MArr := maBin Fl.sub (tail1 a) (init1 a)
+/-- `np.diff(a)` / `np.ma.diff(a)` of a masked array: `np.subtract(a[1:], a[:-1])` called as a
+    ufunc — raw data everywhere (NaN as soon as one operand is NaN), masks united.  (Unlike the
+    operator `a[1:] - a[:-1]`, which would keep the first operand's data under the mask.) -/
+def maDiff (a : MArr) : MArr := uf2 Fl.sub (tail1 a) (init1 a)
+
+/-- `ma / arr` for a plain array of non-zero numbers. -/
+def maDivArr (a : MArr) (d : List Rat) : MArr := List.zipWith divCell a d
 
 /-- comparisons of a masked array with a scalar: raw comparison, same mask -/
 def gtS (a : MArr) (r : Rat) : BArr := a.map fun x => ⟨x.d.gtS r, x.m⟩
 def ltS (a : MArr) (r : Rat) : BArr := a.map fun x => ⟨x.d.ltS r, x.m⟩
 def geS (a : MArr) (r : Rat) : BArr := a.map fun x => ⟨x.d.geS r, x.m⟩
 
-/-- `|` of two masked boolean arrays (numpy.ma binary operation). -/
+/-- `|` of two masked boolean arrays: `np.bitwise_or` as a plain ufunc — raw data everywhere,
+    masks united. -/
 def bor (a b : BArr) : BArr :=
-  List.zipWith (fun x y => ⟨if x.m || y.m then x.d else x.d || y.d, x.m || y.m⟩) a b
+  List.zipWith (fun x y => ⟨x.d || y.d, x.m || y.m⟩) a b
 
 /-- the `.mask` of a masked array, as a plain boolean array -/
 def maskOf (a : MArr) : List Bool := a.map (·.m)
@@ -144,6 +156,12 @@ def setLast (fl : List Flag) (x : Flag) : List Flag :=
   match fl with | [] => [] | _ => fl.take (fl.length - 1) ++ [x]
 
 def ones (n : Nat) : List Flag := List.replicate n .good
+
+/-- `span(*sorted(x))` for a 2-sequence argument (after `isfixedlength(x, 2)`). -/
+def sortedSpan (a : SeqArg) : Except Err (Rat × Rat) :=
+  match a.vals with
+  | [x, y] => pure (sort2 x y)
+  | _ => throw .value
 
 /-! ## array-level transcriptions -/
 
@@ -181,8 +199,7 @@ def dtSeconds (ts : List Int) : List Rat := List.zipWith (fun b a => ((b - a : I
 def rocBody (thr : Rat) (inp : MArr) (ts : List Int) : List Flag :=
   let flag_arr := ones inp.length
   let roc := zeros inp.length
-  let q := List.zipWith (fun (x : Cell) (dt : Rat) => (⟨if x.m then x.d else x.d.divS dt, x.m⟩ : Cell)) (maDiff inp) (dtSeconds ts)
-  let roc := setTail roc (uf1 Fl.abs q)
+  let roc := setTail roc (uf1 Fl.abs (maDivArr (maDiff inp) (dtSeconds ts)))
   let flag_arr := setWhereB flag_arr (gtS roc thr) .suspect
   setWhere flag_arr (maskOf inp) .missing
 
@@ -207,10 +224,16 @@ def spikeDiffDifferential (inp : MArr) : MArr :=
   let cond := geS (maBin Fl.mul (init1 ref) (tail1 ref)) 0
   setInner diff (setZeroWhereB (tail1 (init1 diff)) cond)
 
+/-- `if threshold is not None: flag_arr[diff > threshold] = x`. -/
+def applyThr (o : Option Rat) (fl : List Flag) (diff : MArr) (x : Flag) : List Flag :=
+  match o with
+  | some s => setWhereB fl (gtS diff s) x
+  | none => fl
+
 def spikeFlags (sus fail : Option Rat) (diff : MArr) : List Flag :=
   let flag_arr := ones diff.length
-  let flag_arr := match sus with | some s => setWhereB flag_arr (gtS diff s) .suspect | none => flag_arr
-  let flag_arr := match fail with | some f => setWhereB flag_arr (gtS diff f) .fail | none => flag_arr
+  let flag_arr := applyThr sus flag_arr diff .suspect
+  let flag_arr := applyThr fail flag_arr diff .fail
   let flag_arr := setFirst flag_arr .unknown
   let flag_arr := setLast flag_arr .unknown
   setWhere flag_arr (maskOf diff) .missing
